@@ -163,8 +163,50 @@ class C07(ValueProfile):
     client_bias = {"inspector": 1.5, "calculator": 1.5, "curator": 0.3, "registrar": 0.4}
     family_bias = {"curve": 0.2, "fixed": 0.4}
 
+    xrestart_every = 24  # one run in so many (by seed) also restarts into a fresh interpreter
+
     def monitors(self, cfg):
         return [Mon.QSweep("C07", eager_full=cfg.get("eager_full", True))]
+
+    def cross_executions(self, full, known):
+        """RESTART-X: the durable state of the run's first restart is additionally loaded by a
+        fresh interpreter started under another PYTHONHASHSEED (sim/xrestart.py)."""
+        first = full.get("first_restart")
+        if not first or full["cfg"].get("seed", 1) % self.xrestart_every != 0:
+            return None
+        import json
+        import os
+        import pickle
+        import subprocess
+        import sys
+
+        from ..boot import VERIF_DIR
+
+        env = dict(os.environ)
+        env["PYTHONHASHSEED"] = "4242"
+        env["BARRIL_VERIF_BOOTED"] = "1"
+        payload = pickle.dumps({"prop": self.prop, "cfg": full["cfg"], "dyn_regs": first["dyn_regs"], "items": first["items"]})
+        p = subprocess.run([sys.executable, os.path.join(VERIF_DIR, "sim", "xrestart.py")], input=payload, stdout=subprocess.PIPE, stderr=subprocess.PIPE, env=env, timeout=120)
+        line = [l for l in p.stdout.decode(errors="replace").splitlines() if l.startswith("XRESTART-RESULT ")]
+        if p.returncode != 0 or not line:
+            from ..proc import HarnessError
+
+            raise HarnessError("fresh-interpreter restart failed (rc %s): %s" % (p.returncode, p.stderr.decode(errors="replace")[-1500:]))
+        res = json.loads(line[-1][len("XRESTART-RESULT ") :])
+        out = {"violations": [], "execs": {"RESTART-X": 1}, "oracle_checks": res["checks"], "known_hits": []}
+        for v in res["violations"]:
+            if v["step"] == -1:
+                v["step"] = first["step"]
+            hit = False
+            for k_oracle, k_sig, k_id in known:
+                if k_oracle == v["oracle"] and all(v["sig"].get(x) == y for x, y in k_sig.items()):
+                    v["known"] = k_id
+                    out["known_hits"].append(v)
+                    hit = True
+            if not hit:
+                out["violations"].append(v)
+                break
+        return out
 
     def restart_check(self, sim, i, v, before, now, step):
         # every quantity (bare or inside an unpickled Scalar / FixedArray) has the getter fingerprint
